@@ -1,4 +1,5 @@
 pub mod pct;
+pub mod postform;
 pub mod range;
 pub mod sigv2;
 pub mod sigv4;
@@ -21,6 +22,8 @@ pub fn self_test_all() -> Result<usize, String> {
     sigv4::self_test()?;
     n += 1;
     sigv2::self_test()?;
+    n += 1;
+    postform::self_test()?;
     n += 1;
     Ok(n)
 }
